@@ -165,6 +165,57 @@ Section Generic.
         end
     end.
 
+  (* ---- a pipeline whose source is another pipeline (`register_value_producer(name, source=other_pipeline)`):
+     `self.source( *args, **kwargs)` is then the inner Pipeline.__call__ - source, modifiers AND post-processor of the
+     inner pipeline (skip_post_processor is not forwarded) - evaluated where an ordinary source callable would be.
+     [nested s] = the pipeline that source id s denotes, if any.  Fuel bounds the nesting depth (a cycle of
+     pipelines recurses without bound in the real code). *)
+  Variable nested : Z -> option Z.
+
+  Fixpoint ncall (fuel : nat) (r : registry) (n : Z) (a : arg) (skip : bool) : list (ev arg atom) * result (pv atom) :=
+    match fuel with
+    | O => ([], OutOfFuel)
+    | S f =>
+        let p := get_pipe r n in
+        match p_source p with
+        | None => ([], Rejected EDynamicValue)
+        | Some s =>
+            let inner := match nested s with
+                         | Some m => ncall f r m a false
+                         | None => ([ESrc s a], Ok (src s a))
+                         end in
+            match snd inner with
+            | Ok v0 =>
+                match apply_muts (p_comb p) (p_muts p) a (fst inner) v0 with
+                | (tr, Ok v) => if post_applies p skip then (tr ++ [EPost (p_post p) v], post (p_post p) v) else (tr, Ok v)
+                | (tr, bad) => (tr, bad)
+                end
+            | bad => (fst inner, bad)
+            end
+        end
+    end.
+
+  (* what a (nested) call is expected to evaluate: the modifiers / post-processors of the chain, innermost first *)
+  Fixpoint chain_mods (fuel : nat) (r : registry) (n : Z) : list Z :=
+    match fuel with
+    | O => []
+    | S f => let p := get_pipe r n in
+             match p_source p with
+             | None => []
+             | Some s => match nested s with Some m => chain_mods f r m | None => [] end ++ p_muts p
+             end
+    end.
+  Fixpoint chain_posts (fuel : nat) (r : registry) (n : Z) (skip : bool) : list postk :=
+    match fuel with
+    | O => []
+    | S f => let p := get_pipe r n in
+             match p_source p with
+             | None => []
+             | Some s => match nested s with Some m => chain_posts f r m false | None => [] end ++
+                         (if post_applies p skip then [p_post p] else [])
+             end
+    end.
+
   Definition step (r : registry) (o : op arg) : registry * out arg atom :=
     match o with
     | RegisterProducer n s c k => register_producer r n s c k
@@ -435,6 +486,12 @@ Definition cstep (e : env) (r : registry) (o : op carg) (steps : list Z) (gstep 
   let idx := match o with Call _ a _ => carg_idx a | _ => None end in
   step carg catom (csrc e) (cmodr e) (cmodl e) (cpost e idx steps gstep) r o.
 
+(* source ids 101..199 denote "the probe pipeline 1..99 itself, used as a source" *)
+Definition cnested (s : Z) : option Z := if (100 <? s) && (s <? 200) then Some (s - 100) else None.
+Definition cncall (e : env) (r : registry) (n : Z) (a : carg) (skip : bool) (steps : list Z) (gstep : Z)
+  : list (ev carg catom) * result cpv :=
+  ncall carg catom (csrc e) (cmodr e) (cmodl e) (cpost e (carg_idx a) steps gstep) cnested 8 r n a skip.
+
 Fixpoint check_ops (e : env) (r : registry) (l : list (cop * cobs)) : bool :=
   match l with
   | [] => true
@@ -442,7 +499,8 @@ Fixpoint check_ops (e : env) (r : registry) (l : list (cop * cobs)) : bool :=
       let '(r', x) := cstep e r o [] 0 in
       (out_code x =? code) && snap_ok r' snap && check_ops e r' rest
   | (XCall n a skip steps gstep, BCall code tr v) :: rest =>
-      let '(r', x) := cstep e r (Call n a skip) steps gstep in
+      let r' := r in
+      let x := let '(mtr, mrv) := cncall e r n a skip steps gstep in @OCalled carg catom mtr mrv in
       match x with
       | OCalled mtr (Ok mv) =>
           (code =? 0) && list_eqb ev_eqb mtr tr &&
